@@ -397,6 +397,24 @@ def gen_stale_error_history(rng):
     return op_line(P, 20, rng.random() < 0.3, m, 0, lb, ub, 0.0, [0.0] * m, None, [0.0] * n, [0.0] * m, script)
 
 
+def gen_mixed_above(rng):
+    """Caller's Σ with some components above max_penalty and others below, large non-shrinking errors: the
+    components that started ≤ max_penalty must stop at max_penalty, the others keep their value."""
+    P = default_params()
+    P['max_penalty'] = maxpen = pow2(rng, 2, 6)
+    P['penalty_update_factor'] = rng.choice([4.0, 16.0, 64.0])
+    m = rng.choice([2, 3, 3])
+    above = rng.randrange(m)
+    sig = [maxpen * pow2(rng, 1, 4) if i == above or rng.random() < 0.2 else maxpen * pow2(rng, -6, 0)
+           for i in range(m)]
+    lb, ub = gen_D(rng, m)
+    script, prev = [], None
+    for j in range(rng.randint(3, 6)):
+        ez = [a if abs(a) > P['dual_tolerance'] else 1.0 for a in gen_errz(rng, P, m, prev, kind='big')]
+        script.append(entry(rng.choice(['Converged', 'MaxIter']), 1.0, ez)); prev = ez
+    return op_line(P, 8, False, m, 0, lb, ub, 1.0, [1.0] * m, sig, [0.0], [0.0] * m, script)
+
+
 def gen_ops(rng, n):
     thorough = n >= 20000
     ops = repaired_points(rng) + excluded_points(rng) + stop_sweeps()
@@ -412,6 +430,8 @@ def gen_ops(rng, n):
         ops.append(gen_random(rng, exact=rng.random() < 0.8, max_len=100))
     for i in range(max(40, n // 50)):
         ops.append(gen_stale_error_history(rng))
+    for i in range(max(60, n // 50)):
+        ops.append(gen_mixed_above(rng))
     return ops
 
 
@@ -619,25 +639,46 @@ def monitor_(op, out, st):
     # the caller's Σ counts as "the caller's initial penalties" only if it is usable at all:
     # finite and componentwise positive (anything else must not reach the inner solver)
     user = I['sig'] is not None and finite(I['sig']) and all(s > 0 for s in I['sig'])
-    init = calls[0]['sigma']
-    caller_above = (user and any(s > maxpen for s in I['sig'])) or \
-                   (not user and P['initial_penalty'] > maxpen)
-    excuse = None
-    if not user and not P['initial_penalty'] > 0 and \
-            (P['min_penalty'] > maxpen or not P['min_penalty'] > 0):
-        excuse = K_PARAMS        # automatic initial penalty with an invalid [min_penalty, max_penalty]
+    automatic = not user and not P['initial_penalty'] > 0
+    # exemptions, each as narrow as the open finding C07-alm-params-not-validated (ValidParams conjuncts
+    # `0 < min_penalty`, `min_penalty ≤ max_penalty`, which concern the automatic initial penalty only)
+    excuse_pos = K_PARAMS if automatic and not P['min_penalty'] > 0 else None
+    excuse_max = K_PARAMS if automatic and P['min_penalty'] > maxpen else None
 
-    def viol(msg):
+    def viol(msg, excuse=None):
         return (msg, excuse) if excuse else msg
+    # (a) the penalties of the first inner solve are the caller's / the documented automatic ones — computed
+    #     from the op line alone (user Σ, initial_penalty, or σ = clamp(initial_penalty_factor·max(1,|f(x₀)|) /
+    #     max(1, ½‖g(x₀)‖²), min_penalty, max_penalty) in exact rationals), single-factor mode: the largest
+    exp0, how0 = expected_initial_sigma(I, user)
+    if exp0 is None:
+        count('excluded: automatic initial penalty with min_penalty > max_penalty (std::clamp undefined)')
+    else:
+        count('initial Σ checked against ' + how0)
+        if len(calls[0]['sigma']) != m:
+            return f'inner solve 0 got {len(calls[0]["sigma"])} penalty factors, m = {m}'
+        for i, s0 in enumerate(calls[0]['sigma']):
+            ok = (Fr(s0) == exp0[i]) if how0 != 'the automatic rule' else \
+                (finite(s0) and abs(Fr(s0) - exp0[i]) <= Fr(2) ** -50 * abs(exp0[i]))
+            if not ok:
+                return (f'penalty Σ[{i}] = {s0!r} of the first inner solve is not the expected initial penalty '
+                        f'{float(exp0[i])!r} ({how0})')
     for k, c in enumerate(calls):
         if len(c['sigma']) != m:
             return f'inner solve {k} got {len(c["sigma"])} penalty factors, m = {m}'
         for i, s in enumerate(c['sigma']):
             if not s > 0:
-                return viol(f'penalty Σ[{i}] = {s!r} passed to inner solve {k} is not positive')
-            if s > maxpen and not caller_above:
-                return viol(f'penalty Σ[{i}] = {s!r} of solve {k} exceeds max_penalty {maxpen!r} although '
-                            f'the caller\'s initial penalties do not')
+                return viol(f'penalty Σ[{i}] = {s!r} passed to inner solve {k} is not positive', excuse_pos)
+            # per component: above max_penalty only where the caller's own initial value is, and then unchanged
+            if s > maxpen:
+                if exp0 is not None and not exp0[i] > maxpen:
+                    return viol(f'penalty Σ[{i}] = {s!r} of solve {k} exceeds max_penalty {maxpen!r} although '
+                                f'the caller\'s initial penalty of that component ({float(exp0[i])!r}) does not',
+                                excuse_max)
+                if f2h(s) != f2h(calls[0]['sigma'][i]):
+                    return viol(f'penalty Σ[{i}] above max_penalty {maxpen!r} was changed: '
+                                f'{calls[0]["sigma"][i]!r} → {s!r} (solve {k})', excuse_max)
+                count('component above max_penalty because the caller\'s initial one is')
             if k and s < calls[k - 1]['sigma'][i]:
                 return viol(f'penalty Σ[{i}] decreased {calls[k - 1]["sigma"][i]!r} → {s!r} between solves '
                             f'{k - 1} and {k}')
@@ -648,16 +689,26 @@ def monitor_(op, out, st):
         prev = calls[k - 1]['sigma']
         changed = [i for i in range(m) if c['sigma'][i] != prev[i]]
         count('penalty update: ' + ('some component grew' if changed else 'nothing changed'))
-        if not changed or not finite(e) or (eo is not None and not finite(eo)):
+        if not finite(e) or (eo is not None and not finite(eo)) or not finite(prev):
+            count('penalty update not checked: non-finite slack error / penalty in the history (NoNaN)')
             continue
         if norm_inf(e) <= dtol:
-            return viol(f'penalties changed before solve {k} although ‖e‖∞ = {norm_inf(e)!r} ≤ dual '
-                        f'tolerance {dtol!r}')
+            if changed:
+                return viol(f'penalties changed before solve {k} although ‖e‖∞ = {norm_inf(e)!r} ≤ dual '
+                            f'tolerance {dtol!r}')
+            continue
+        # (b) the update rule (alm.hpp / alm-helpers: first update — every component; later — where the
+        #     violation failed to shrink by θ; new = max(old, min(max_penalty, max(Δ·|e_i|/‖e‖∞, 1)·old)),
+        #     single-factor mode: ‖e‖∞ against θ‖e_old‖∞ and factor max(Δ, 1)) in exact rationals
+        bad = check_update(P, I['single'], k == 1, e, eo, prev, c['sigma'])
+        if bad:
+            return viol(f'penalty update before solve {k}: {bad}')
+        count('penalty update checked against the documented rule' + (' (first update)' if k == 1 else ''))
         if k == 1:
             continue
         if I['single']:
             lhs, rhs = Fr(norm_inf(e)), Fr(θ) * Fr(norm_inf(eo))
-            if lhs <= rhs and not near(lhs, rhs):
+            if changed and lhs <= rhs and not near(lhs, rhs):
                 return viol(f'single penalty factor grew before solve {k} although ‖e‖∞ = {float(lhs)!r} '
                             f'≤ θ‖e_old‖∞ = {float(rhs)!r}')
         else:
@@ -680,13 +731,95 @@ def monitor_(op, out, st):
     return None
 
 
+def expected_initial_sigma(I, user):
+    """The penalties the first inner solve must get, from the op line alone → ([Fraction]·m, description),
+    or (None, …) where the documented rule is undefined (min_penalty > max_penalty in the automatic rule)."""
+    P, m = I['P'], I['m']
+    if user:
+        base, how = [Fr(s) for s in I['sig']], 'the caller\'s Σ'
+    elif P['initial_penalty'] > 0:
+        base, how = [Fr(P['initial_penalty'])] * m, 'initial_penalty'
+    else:
+        lo, hi = Fr(P['min_penalty']), Fr(P['max_penalty'])
+        if lo > hi:
+            return None, 'undefined'
+        sq = sum((Fr(g) * Fr(g) for g in I['g0']), Fr(0))
+        sigma = Fr(P['initial_penalty_factor']) * max(Fr(1), abs(Fr(I['f0']))) / max(Fr(1), sq / 2)
+        sigma = min(max(sigma, lo), hi)
+        base, how = [sigma] * m, 'the automatic rule'
+    if I['single'] and m:
+        base = [max(base)] * m
+        how += ', single_penalty_factor: the largest entry'
+    return base, ('the automatic rule' if how.startswith('the automatic rule') else how)
+
+
+def check_update(P, single, first, e, eo, prev, new):
+    """One penalty update against the documented rule in exact rationals (‖e‖∞ > dual_tolerance is known).
+    Threshold ties within 2 ulps accept both outcomes.  → None | message"""
+    θ, Δ, maxpen = Fr(P['rel_penalty_increase_threshold']), Fr(P['penalty_update_factor']), Fr(P['max_penalty'])
+    ne = Fr(norm_inf(e))
+    m = len(prev)
+
+    def close(a, b):
+        return abs(Fr(a) - b) <= Fr(2) ** -50 * max(abs(b), abs(Fr(a)))
+    for i in range(m):
+        old = Fr(prev[i])
+        if single:
+            neo = Fr(norm_inf(eo)) if eo is not None else None
+            lhs, rhs = ne, (θ * neo if neo is not None else None)
+            old = Fr(prev[0])
+            factor = max(Δ, Fr(1))
+        else:
+            lhs, rhs = Fr(abs(e[i])), (θ * Fr(abs(eo[i])) if eo is not None else None)
+            factor = max(Δ * Fr(abs(e[i])) / ne, Fr(1))
+        grown = max(old, min(maxpen, factor * old))
+        if first:
+            allowed = [grown]
+        elif near(lhs, rhs):
+            allowed = [grown, Fr(prev[i])]
+        else:
+            allowed = [grown] if lhs > rhs else [Fr(prev[i])]
+        if not any(close(new[i], a) for a in allowed):
+            return (f'Σ[{i}]: {prev[i]!r} → {new[i]!r}, the rule gives '
+                    f'{" or ".join(repr(float(a)) for a in allowed)} '
+                    f'({"first update" if first else "violation " + ("failed to shrink" if lhs > rhs else "shrank")}'
+                    f', factor {float(factor)!r})')
+    return None
+
+
 def near(a, b):
     """products compared by the C++ in binary64: skip ties within 2 ulps of the exact product."""
     return abs(a - b) <= 4 * 2.0 ** -52 * max(abs(a), abs(b))
 
 
+# classes of inputs / monitor clauses every run must have exercised (a missing one is a broken tie)
+REQUIRED = [
+    'initial Σ checked against the caller\'s Σ',
+    'initial Σ checked against the caller\'s Σ, single_penalty_factor: the largest entry',
+    'initial Σ checked against initial_penalty',
+    'initial Σ checked against the automatic rule',
+    'component above max_penalty because the caller\'s initial one is',
+    'penalty update checked against the documented rule',
+    'penalty update checked against the documented rule (first update)',
+    'penalty update: some component grew',
+    'penalty update: nothing changed',
+    'stop flag never set',
+    'stop flag visible after the last inner solve (Converged) → Converged',
+    'stop flag visible after the last inner solve (Converged) → Interrupted',
+    'stop flag visible after the last inner solve (MaxIter) → Interrupted',
+    'stop flag visible after the last inner solve (NoProgress) → Interrupted',
+    'final status Converged', 'final status MaxIter', 'final status MaxTime', 'final status Interrupted',
+    'm = 0', 'm = 1', 'm = 2', 'm = 3', 'single_penalty_factor', 'per-component penalties',
+    'user Σ none', 'user Σ given',
+]
+
+
 def extra_stage(rep, broken, exe, tier):
     rep.cov['distribution'] = dict(sorted(DIST.items()))
+    if DIST:
+        for k in REQUIRED:
+            if not DIST.get(k):
+                broken.append(f'required coverage class never exercised in this run: {k!r}')
 
 
 def nontrivial(op, out):
@@ -757,7 +890,7 @@ if __name__ == '__main__':
              'of length L ≤ 4 over inner statuses {Converged, MaxIter, NoProgress} (the inner outcome does not report '
              'the request), m ∈ {0,1,2}, with and without ALM\'s own termination test passing in iteration k; '
              'random stop bits (6% per inner solve, 3% before the solve) in the seeded histories; exhaustive histories of length ≤ 3 (quick; ≤ 4 '
-             'thorough, quick samples 2500 of length 4 and 500 of length 6 per m) over {Converged, MaxIter, NotFinite, NoProgress, '
+             'mixed user Σ (some components above max_penalty, others growing up to it); thorough, quick samples 2500 of length 4 and 500 of length 6 per m) over {Converged, MaxIter, NotFinite, NoProgress, '
              'Interrupted, MaxTime} × 3 error patterns (ties on dual tolerance / θ-threshold / tolerance) × '
              'm ∈ {0,1,2}, (non-uniform) user Σ on/off, single_penalty_factor on/off, max_iter ∈ {L, L+1}; seeded random '
              'histories (70% exact regime: powers of two; 30% generic doubles), m ∈ {0..3}, one-sided / free / '
